@@ -280,6 +280,9 @@ class PCovR(_BasePCA, LinearModel):
             W = self.regressor_.coef_.T.reshape(X.shape[1], -1)
             Yhat = self.regressor_.predict(X).reshape(X.shape[0], -1)
         else:
+            if hasattr(self, "regressor_"):
+                # left over from an earlier fit with a regressor object
+                del self.regressor_
             Yhat = Y.copy()
             if W is None:
                 W = np.linalg.lstsq(X, Yhat, self.tol)[0]
